@@ -112,6 +112,7 @@ type TD struct {
 	// shadow of what the driver itself did (used only to decide what to wait for)
 	ansKey    int64
 	answered  map[int]bool
+	overlaps  int
 	early     map[string]map[int]bool // collection event -> game indexes whose answer was accepted before the request was published
 	gateParts map[string]bool
 	gateSig   map[string]bool
@@ -373,7 +374,55 @@ func (d *TD) deliverToActors(t *pt.Table) {
 	a.Kind = "delivered"
 	a.Note = t.Meta.CompetitionID
 	d.rec.Emit("actorsdone", a, "", nil, t, &pre, before == after)
+	if d.sc.Seed%3 == 0 && d.overlaps < 3 && t.State != nil && t.State.GameState != nil && t.State.Status == pt.TableStateStatus_TableGamePlaying {
+		d.overlaps++
+		d.overlapDelivery(t, &pre)
+	}
 	d.deliveryPre = nil
+}
+
+// overlapDelivery: while a non-system observer's handler is still busy with one in-play snapshot, another goroutine
+// delivers the next update to the same actor.  The busy handler looks at its view again before it returns: it must still
+// be the filtered copy it was given (C20: every delivery is an independent copy).
+func (d *TD) overlapDelivery(t *pt.Table, pre *PState) {
+	entered := make(chan struct{})
+	first := true
+	var mu sync.Mutex
+	a := actor.NewActor()
+	ad := actor.NewTableEngineAdapter(realEngine(d.te), t)
+	a.SetAdapter(ad)
+	ob := actor.NewObserverRunner()
+	ob.OnTableStateUpdated(func(v *pt.Table) {
+		args := mkArgs()
+		args.Kind = "observer"
+		d.rec.Emit("actorview", args, "", nil, v, pre, false)
+		mu.Lock()
+		f := first
+		first = false
+		mu.Unlock()
+		if f {
+			close(entered)
+			time.Sleep(12 * time.Millisecond)
+			args.Note = "looked again while another delivery was on its way"
+			d.rec.Emit("actorview", args, "", nil, v, pre, false)
+		}
+	})
+	a.SetRunner(ob)
+	done := make(chan struct{}, 2)
+	go func() { ad.UpdateTableState(t); done <- struct{}{} }()
+	select {
+	case <-entered:
+	case <-time.After(time.Second):
+		return
+	}
+	go func() { ad.UpdateTableState(t); done <- struct{}{} }()
+	for i := 0; i < 2; i++ {
+		select {
+		case <-done:
+		case <-time.After(2 * time.Second):
+			return
+		}
+	}
 }
 
 // deliverToBots: one real botRunner per seated player behind a real TableEngineAdapter, as in actor/actor_test.go
